@@ -466,10 +466,9 @@ impl<'i> Interp<'i> {
         }
         self.frames.push(self.scopes.len());
         self.scopes.push(scope);
-        // which caller variable a pronoun at the very start of the body denotes is not determined
-        if self.last != Referent::None {
-            self.last = Referent::Unspecified;
-        }
+        // a pronoun at the very start of the body still denotes the variable the caller named last
+        // (nothing has ended); whether that variable is visible from the callee is settled by
+        // running under both scoping disciplines (U-scope when they disagree)
         let saved_loops = self.loop_depth;
         self.loop_depth = 0;
         let flow = self.block(&f.body)?;
